@@ -18,6 +18,7 @@ import IocProofs.Lemmas.SemDelegate
 import IocProofs.Lemmas.OrderSupply
 import IocProofs.Lemmas.SemSupply
 import IocProofs.Lemmas.SemPrepare
+import IocProofs.Lemmas.SemProcessors
 namespace Ioc.C12
 open Ioc Ioc.Order
 
@@ -664,5 +665,58 @@ theorem C12_code_RegisterComponentPostProcessors (isInst isDestr : Nat → Bool)
   registerCPP_sem isInst isDestr i n w
 
 end prepare
+
+/-! ### the small methods of the nine built-in processors and of the two default processors, REGENERATED
+    (interpretation Ioc.SemProcessors: a named order constant evaluates to its name) -/
+section processors
+open Ioc.Go Ioc.Sem
+
+/-- each built-in processor's `Order()` returns the constant named here (value and properties share one, the two dependency
+    processors share one) -/
+theorem C12_code_processor_orders (w : Option Go.Val) :
+    run ppPrims Progs.pp_quote_Order [] w = some (.str "PriorityOrderPropertyConfigQuoteAware", w) ∧
+    run ppPrims Progs.pp_dep_Order [] w = some (.str "OrderDependencyAware", w) ∧
+    run ppPrims Progs.pp_depfn_Order [] w = some (.str "OrderDependencyAware", w) ∧
+    run ppPrims Progs.pp_further_Order [] w = some (.str "OrderDependencyFurtherMatching", w) ∧
+    run ppPrims Progs.pp_expr_Order [] w = some (.str "PriorityOrderPropertyExpressionTagAware", w) ∧
+    run ppPrims Progs.pp_logger_Order [] w = some (.str "PriorityOrderLoggerAware", w) ∧
+    run ppPrims Progs.pp_props_Order [] w = some (.str "PriorityOrderPopulateProperties", w) ∧
+    run ppPrims Progs.pp_validate_Order [] w = some (.str "OrderValidate", w) ∧
+    run ppPrims Progs.pp_value_Order [] w = some (.str "PriorityOrderPopulateProperties", w) :=
+  ⟨pp_quote_Order_sem w, pp_dep_Order_sem w, pp_depfn_Order_sem w, pp_further_Order_sem w, pp_expr_Order_sem w, pp_logger_Order_sem w, pp_props_Order_sem w, pp_validate_Order_sem w, pp_value_Order_sem w⟩
+
+/-- each built-in processor lets population go on after instantiation: `PostProcessAfterInstantiation` = (true, nil) -/
+theorem C12_code_processor_after_instantiation (c n : Go.Val) (w : Option Go.Val) :
+    run ppPrims Progs.pp_quote_AfterInstantiation [c, n] w = some (.tuple [.bool true, .nil], w) ∧
+    run ppPrims Progs.pp_dep_AfterInstantiation [c, n] w = some (.tuple [.bool true, .nil], w) ∧
+    run ppPrims Progs.pp_depfn_AfterInstantiation [c, n] w = some (.tuple [.bool true, .nil], w) ∧
+    run ppPrims Progs.pp_further_AfterInstantiation [c, n] w = some (.tuple [.bool true, .nil], w) ∧
+    run ppPrims Progs.pp_expr_AfterInstantiation [c, n] w = some (.tuple [.bool true, .nil], w) ∧
+    run ppPrims Progs.pp_logger_AfterInstantiation [c, n] w = some (.tuple [.bool true, .nil], w) ∧
+    run ppPrims Progs.pp_props_AfterInstantiation [c, n] w = some (.tuple [.bool true, .nil], w) ∧
+    run ppPrims Progs.pp_validate_AfterInstantiation [c, n] w = some (.tuple [.bool true, .nil], w) ∧
+    run ppPrims Progs.pp_value_AfterInstantiation [c, n] w = some (.tuple [.bool true, .nil], w) :=
+  ⟨pp_quote_After_sem c n w, pp_dep_After_sem c n w, pp_depfn_After_sem c n w, pp_further_After_sem c n w, pp_expr_After_sem c n w, pp_logger_After_sem c n w, pp_props_After_sem c n w, pp_validate_After_sem c n w, pp_value_After_sem c n w⟩
+
+/-- `PostProcessComponentFactory` of the four processors that have one stores what the factory hands out — its Configure, or
+    its definition registry — and returns nil -/
+theorem C12_code_processor_factory_hooks (w : Option Go.Val) :
+    run ppPrims Progs.pp_quote_ComponentFactory [.ref 0 171] w = some (.nil, some (.tuple [.str "Configure", .str "factory.GetConfigure()"])) ∧
+    run ppPrims Progs.pp_dep_ComponentFactory [.ref 0 171] w = some (.nil, some (.tuple [.str "Registry", .str "factory.GetDefinitionRegistry()"])) ∧
+    run ppPrims Progs.pp_depfn_ComponentFactory [.ref 0 171] w = some (.nil, some (.tuple [.str "Registry", .str "factory.GetDefinitionRegistry()"])) ∧
+    run ppPrims Progs.pp_props_ComponentFactory [.ref 0 171] w = some (.nil, some (.tuple [.str "Configure", .str "factory.GetConfigure()"])) :=
+  ⟨pp_quote_Factory_sem w, pp_dep_Factory_sem w, pp_depfn_Factory_sem w, pp_props_Factory_sem w⟩
+
+/-- the default processors change nothing: the component is returned as it is, no substitute before instantiation, and —
+    unlike the built-in ones — `PostProcessAfterInstantiation` = (false, nil), `PostProcessProperties` = (nil, nil) -/
+theorem C12_code_default_processors (c n : Go.Val) (w : Option Go.Val) :
+    run ppPrims Progs.pp_default_BeforeInitialization [c, n] w = some (.tuple [c, .nil], w) ∧
+    run ppPrims Progs.pp_default_AfterInitialization [c, n] w = some (.tuple [c, .nil], w) ∧
+    run ppPrims Progs.pp_default_BeforeInstantiation [c, n] w = some (.tuple [.nil, .nil], w) ∧
+    run ppPrims Progs.pp_default_AfterInstantiation [c, n] w = some (.tuple [.bool false, .nil], w) ∧
+    (∀ ps, run ppPrims Progs.pp_default_Properties [ps, c, n] w = some (.tuple [.nil, .nil], w)) :=
+  pp_default_sem c n w
+
+end processors
 
 end Ioc.C12
